@@ -242,6 +242,72 @@ PROPS['C15'] = dict(
     assumptions=['float weights are non-negative or NaN (documented precondition)'],
 )
 
+M_FIXED = [K('m_fixed_contiguous_p8', 'models', 'fixed_contiguous_p8', tq=900), K('m_fixed_contiguous_p4', 'models', 'fixed_contiguous_p4', tq=900),
+           K('m_fixed_noncontig_p8', 'models', 'fixed_noncontig_p8', tq=900), K('m_fixed_noncontig_p4', 'models', 'fixed_noncontig_p4', tiers=('thorough',)),
+           K('m_fixed_lookup_p4', 'models', 'fixed_lookup_p4', tq=900), K('m_fixed_lookup_p8', 'models', 'fixed_lookup_p8', tiers=('thorough',))]
+M_UNIFORM = [K('m_uniform_u8_p8', 'models', 'uniform_u8_p8', tq=600), K('m_uniform_u8_p5', 'models', 'uniform_u8_p5', tq=600)]
+M_FLOAT = [K('m_fast_f32_n3_p4_norm1', 'models', 'fast_f32_n3_p4_norm1', tq=900), K('m_fast_f32_n2_p3_nonorm', 'models', 'fast_f32_n2_p3_nonorm', tq=900)]
+M_QUANT = [K('m_quantizer_u8_p4_sup3', 'models', 'quantizer_u8_p4_sup3', tq=1200)]
+MODEL_BOUNDS = ('Probability = u8; supports of <= 3 symbols; PRECISION in {8 (= Probability bits, wrapping total), 4} for fixed-point tables, 4 / 3 for f32 tables '
+                '(n=3 normalised to exactly 1.0; n=2 any finite non-negative entries), leaky quantiser over a stub distribution whose CDF is a fully symbolic f64 table '
+                'constrained only by the documented contract (monotone, within [0,1]) with an arbitrary finite inverse hint (support 0..=2, P=4); uniform model over all ranges at P in {5,8}; symbolic quantile everywhere')
+MODEL_OUTSIDE = ('supports > 3 symbols; Probability wider than u8; f64 tables; real Gaussian/Cauchy/Laplace/binomial CDF code (transcendental; replaced by the most general contract-respecting stub); '
+                 'the ..._perfect constructors (optimisation loop over libm::log1p: not encodable); hash-table backed encoder models (std HashMap does not finish under CBMC)')
+
+PROPS['C03'] = dict(obligations=M_FIXED + M_UNIFORM + M_FLOAT + M_QUANT, bounds=MODEL_BOUNDS, outside=MODEL_OUTSIDE,
+                    assumptions=['float inputs satisfy the documented preconditions (finite, non-negative, positive normal sum); stub distribution: monotone table in [0,1]'],
+                    stubs=['probability::distribution::{Distribution, Inverse} implemented by a symbolic table (TableDist)'])
+
+PROPS['C05'] = dict(obligations=[K('m_conversions_contiguous_p4', 'models', 'conversions_contiguous_p4', tq=1200), K('m_lazy_vs_eager_f32_n3_p4', 'models', 'lazy_vs_eager_f32_n3_p4', tq=900),
+                                 K('m_fixed_lookup_p4', 'models', 'fixed_lookup_p4', tq=900), K('m_quantizer_u8_p4_sup3', 'models', 'quantizer_u8_p4_sup3', tq=1200)],
+                    bounds=MODEL_BOUNDS + '; pairwise equality of (left cumulative, probability) on a symbolic symbol and of quantile_function on a symbolic quantile', outside=MODEL_OUTSIDE,
+                    assumptions=[], stubs=['TableDist stub distribution'])
+
+PROPS['C19'] = dict(obligations=M_FIXED + [K('m_fixed_infer_complete_p8', 'models', 'fixed_infer_complete_p8', tq=600), K('m_fixed_infer_complete_p4', 'models', 'fixed_infer_complete_p4', tq=600),
+                                           K('m_uniform_rejects', 'models', 'uniform_rejects', tq=300, lib_panics='allow'),
+                                           K('m_fast_f32_n2_p3_anyinput', 'models', 'fast_f32_n2_p3_anyinput', tq=900, lib_panics='allow')],
+                    bounds=MODEL_BOUNDS + '; constructor inputs UNCONSTRAINED (any bit pattern of the floats, any fixed-point table, any infer_last flag, mismatched symbol counts); a library panic is an accepted outcome',
+                    outside=MODEL_OUTSIDE + '; Python front end (FFI); recorded known findings are excluded by their region predicates (see known_findings.json)', assumptions=[])
+
+RG = [K('c08_range_guard_normal_u8_u16', 'rangek', 'range_guard_normal_u8_u16', tq=900), K('c08_range_guard_inverted_u8_u16', 'rangek', 'range_guard_inverted_u8_u16', tq=900),
+      K('c08_range_guard_normal_u16_u32', 'rangek', 'range_guard_normal_u16_u32', tq=900), K('c08_range_guard_inverted_u16_u32', 'rangek', 'range_guard_inverted_u16_u32', tq=900),
+      K('c08_range_guard_normal_u32_u64', 'rangek', 'range_guard_normal_u32_u64', tiers=('thorough',)), K('c08_range_guard_inverted_u32_u64', 'rangek', 'range_guard_inverted_u32_u64', tiers=('thorough',))]
+ANS_VIEWS = [K('c08_ans_view_u8_u16', 'ans', 'view_u8_u16'), K('c08_ans_view_u16_u32', 'ans', 'view_u16_u32'), K('c08_ans_view_u32_u64', 'ans', 'view_u32_u64', tiers=('thorough',)),
+             K('c08_ans_binary_view_u8_u16', 'ans', 'guards_u8_u16'), K('c08_ans_binary_view_u16_u32', 'ans', 'guards_u16_u32', tiers=('thorough',))]
+PROPS['C08'] = dict(
+    obligations=ANS_VIEWS + RG + [K('c08_range_decoder_view_u8_u16', 'rangek', 'range_decoder_view_u8_u16', tq=600),
+                                  K('c08_bit_stack_guard', 'bits', 'stack_guard', tq=900), K('c08_bit_queue_guard', 'bits', 'queue_guard', tq=900)],
+    bounds='ANS: any invariant raw state over Vec (bulk <= 1 word) at u8/u16, u16/u32, u32/u64; range encoder: any raw state, Normal or Inverted(n <= 2, w), bulk <= 1 word; '
+           'bit coders: every content of <= 9 bits incl. an exactly full word and the empty coder, followed by one further operation. The view must equal an independent arithmetic expectation '
+           'of what finishing now returns, and dropping it must restore the raw parts (sufficient for "continuing yields the same output")',
+    outside='inverted runs > 2 words, bulk > 1 word (words below the top are never touched by seal/unseal); queries taking &self cannot mutate by the type system (stated, not checked)',
+    assumptions=['Inv_ans / Inv_renc on symbolic pre-states'],
+)
+
+PROPS['C18'] = dict(
+    obligations=[K('c18_ans_sizes_u8_u16', 'ans', 'export_u8_u16'), K('c18_ans_sizes_u16_u32', 'ans', 'export_u16_u32'), K('c18_ans_sizes_u32_u64', 'ans', 'export_u32_u64'),
+                 K('c18_ans_valid_bits_u8_u16', 'ans', 'binary_u8_u16'), K('c18_ans_valid_bits_u16_u32', 'ans', 'binary_u16_u32', tiers=('thorough',))] + RG[:4] +
+                [K('c18_bit_len_stack', 'bits', 'stack_export_import', tq=900), K('c18_bit_len_queue', 'bits', 'queue_fifo', tq=900),
+                 K('c18_float_views', 'models', 'conversions_contiguous_p4', tq=1200),
+                 L('c18_range_exhaustion', 'k_c02_fresh_k2_{cfg}', ['u8_u16_p4'], ['u8_u16_p4', 'u8_u16_p8', 'u16_u32_p12'], cap=dict(quick=90, thorough=600)),
+                 L('c18_range_exhaustion_k1', 'k_c02_rt_k1_{cfg}', RQ, RALL, fixes=range_fixes)],
+    bounds='as C01/C02/C08/C16: size and emptiness queries compared with the length of the actual export from any raw state; exhaustion after exactly the encoded symbols (k <= 2); '
+           'floating-point views of probabilities equal p / 2^P exactly',
+    outside='entropy_base2, cross_entropy_base2, reverse_cross_entropy_base2, kl_divergence_base2, reverse_kl_divergence_base2: they call log2, for which neither CBMC nor the SMT '
+            'solvers have a bit-precise model, and the property only promises agreement up to floating-point rounding: this clause of C18 is NOT decided by this family of technique',
+    assumptions=[],
+)
+
+PROPS['C07'] = dict(
+    obligations=[K('c07_ans_seek_u8_u16_p4', 'rangek', 'ans_seek_u8_u16_p4', tq=1200), K('c07_ans_seek_reversed_u8_u16_p4', 'rangek', 'ans_seek_reversed_u8_u16_p4', tq=1200),
+                 L('c07_range_seek_k1', 'k_c07_range_seek_k1_{cfg}', ['u8_u16_p4', 'u16_u32_p12', 'u32_u64_p24'], ['u8_u16_p4', 'u8_u16_p8', 'u16_u32_p12', 'u32_u64_p24'], fixes=range_fixes),
+                 L('c07_range_seek_k2', 'k_c07_range_seek_k2_{cfg}', ['u8_u16_p4'], ['u8_u16_p4', 'u8_u16_p8', 'u16_u32_p12'], cap=dict(quick=90, thorough=900))],
+    bounds='ANS: k <= 2 symbols into the real Vec, snapshots at every boundary, borrowed / consuming / reversed seekable decoders, two seeks in a symbolic order; '
+           'range coder: k <= 2 symbols from the fresh encoder or any Normal raw state, snapshots at every boundary incl. while words are held back, the library Cursor over a slice, two seeks in symbolic order',
+    outside='k > 2; the back-end Seek contracts themselves are C17',
+    assumptions=['as C01/C02'],
+)
+
 PROPS['C17'] = dict(
     obligations=[
         K('c17_cursor_script', 'c17', 'cursor_script_mut_slice', tq=900),
